@@ -2,11 +2,11 @@ INIT Init
 NEXT Next
 VIEW view
 CONSTANTS
-  PNorm <- AlphaWild
-  PLit <- LitCore
+  PNorm <- AlphaFull
+  PLit <- NoChars
   PMacro <- NoChars
-  PLen = 2
+  PLen = 5
   SAlpha <- StrFull
-  SLen = 2
-  Kind = "shell"
+  SLen = 3
+  Kind = "match"
 INVARIANT Emit
